@@ -350,6 +350,9 @@ func (g *c28Gen) firstProfile() []osutil.MountEntry {
 	for k := 1 + g.r.Intn(7); k > 0; k-- {
 		prof = g.add(prof, g.newEntry(prof))
 	}
+	if g.r.Intn(5) < 2 {
+		prof = g.families(prof)
+	}
 	g.r.Shuffle(len(prof), func(i, j int) { prof[i], prof[j] = prof[j], prof[i] })
 	return prof
 }
@@ -370,6 +373,10 @@ func (g *c28Gen) nextProfile(prev []osutil.MountEntry) (next []osutil.MountEntry
 		return next, "same"
 	case x < 15:
 		return nil, "empty"
+	case x < 35:
+		if vi := g.victim(prev); vi >= 0 {
+			return g.parentGoes(prev, vi)
+		}
 	}
 	g.setUsed(nil)
 	removed, modified, added := 0, 0, 0
@@ -379,31 +386,7 @@ func (g *c28Gen) nextProfile(prev []osutil.MountEntry) (next []osutil.MountEntry
 			removed++
 			continue
 		case y < 35:
-			m := c28CopyEntry(e)
-			switch {
-			case m.XSnapdKind() == "symlink":
-				for i, o := range m.Options {
-					if strings.HasPrefix(o, "x-snapd.symlink=") {
-						m.Options[i] = "x-snapd.symlink=" + g.snapSource() + "/v2"
-					}
-				}
-			case m.XSnapdKind() == "ensure-dir" || m.Type == "tmpfs":
-				m.Options = append(m.Options, "x-snapd.mode=0700")
-			case r.Intn(2) == 0:
-				m.Name = m.Name + ".v2"
-			default:
-				flipped := false
-				for i, o := range m.Options {
-					if o == "rw" {
-						m.Options[i], flipped = "ro", true
-					} else if o == "ro" {
-						m.Options[i], flipped = "rw", true
-					}
-				}
-				if !flipped {
-					m.Name = m.Name + ".v2"
-				}
-			}
+			m := g.modify(e)
 			modified++
 			next = g.add(next, m)
 		default:
@@ -415,10 +398,295 @@ func (g *c28Gen) nextProfile(prev []osutil.MountEntry) (next []osutil.MountEntry
 		next = g.add(next, g.newEntry(next))
 		added += len(next) - n
 	}
+	if r.Intn(8) == 0 {
+		n := len(next)
+		next = g.families(next)
+		added += len(next) - n
+	}
 	if r.Intn(2) == 0 {
 		r.Shuffle(len(next), func(i, j int) { next[i], next[j] = next[j], next[i] })
 	}
 	return next, fmt.Sprintf("-%d~%d+%d", removed, modified, added)
+}
+
+// modify returns a changed copy of e: another source, ro/rw flipped, another
+// symlink target or another mode. The mount point stays.
+func (g *c28Gen) modify(e osutil.MountEntry) osutil.MountEntry {
+	r := g.r
+	m := c28CopyEntry(e)
+	switch {
+	case m.XSnapdKind() == "symlink":
+		for i, o := range m.Options {
+			if strings.HasPrefix(o, "x-snapd.symlink=") {
+				m.Options[i] = "x-snapd.symlink=" + g.snapSource() + "/v2"
+			}
+		}
+	case m.XSnapdKind() == "ensure-dir" || m.Type == "tmpfs":
+		m.Options = append(m.Options, "x-snapd.mode=0700")
+	case r.Intn(2) == 0:
+		m.Name = m.Name + ".v2"
+	default:
+		flipped := false
+		for i, o := range m.Options {
+			if o == "rw" {
+				m.Options[i], flipped = "ro", true
+			} else if o == "ro" {
+				m.Options[i], flipped = "rw", true
+			}
+		}
+		if !flipped {
+			m.Name = m.Name + ".v2"
+		}
+	}
+	return m
+}
+
+// ---------------------------------------------------------------------------
+// directed classes: nesting across origins, shared mimics, bystanders
+
+func (g *c28Gen) withOrigin(e osutil.MountEntry, origin string) osutil.MountEntry {
+	switch origin {
+	case "layout":
+		e.Options = append(e.Options, "x-snapd.origin=layout")
+	case "overname":
+		if e.XSnapdKind() == "" && e.Type == "none" {
+			e.Options = append(e.Options, "x-snapd.origin=overname")
+		}
+	}
+	if g.r.Intn(6) == 0 {
+		g.nid++
+		e.Options = append(e.Options, fmt.Sprintf("x-snapd.id=id-%d", g.nid))
+	}
+	return e
+}
+
+// dirEntry: an entry other entries can live beneath (rbind, bind or tmpfs).
+func (g *c28Gen) dirEntry(target, origin string) osutil.MountEntry {
+	r := g.r
+	var e osutil.MountEntry
+	switch x := r.Intn(10); {
+	case x < 4 || origin == "overname" && x < 7:
+		e = osutil.MountEntry{Name: g.snapSource(), Dir: target, Type: "none", Options: []string{"rbind", "rw"}}
+	case x < 7 || origin == "overname":
+		e = osutil.MountEntry{Name: g.snapSource(), Dir: target, Type: "none", Options: []string{"bind", []string{"ro", "rw"}[r.Intn(2)]}}
+	default:
+		e = osutil.MountEntry{Name: "tmpfs", Dir: target, Type: "tmpfs", Options: []string{"x-snapd.mode=0755"}}
+	}
+	return g.withOrigin(e, origin)
+}
+
+// leafEntry: any kind on a target that does not exist yet (directory kinds,
+// symlink, file).
+func (g *c28Gen) leafEntry(target, origin string) osutil.MountEntry {
+	switch x := g.r.Intn(10); {
+	case x < 7 || g.t.exists(target):
+		return g.dirEntry(target, origin)
+	case x < 9:
+		return g.withOrigin(osutil.MountEntry{Name: "none", Dir: target, Type: "none",
+			Options: []string{"x-snapd.kind=symlink", "x-snapd.symlink=" + g.snapSource()}}, origin)
+	default:
+		return g.withOrigin(osutil.MountEntry{Name: filepath.Join(g.snapSource(), "file"), Dir: target, Type: "none",
+			Options: []string{"bind", "rw", "x-snapd.kind=file"}}, origin)
+	}
+}
+
+var c28FamilyOrigins = []string{"layout", "", "layout", "", "layout", "", "overname"}
+
+// otherOrigin picks an origin different from o (layout and content mostly).
+func (g *c28Gen) otherOrigin(o string) string {
+	for {
+		if c := c28FamilyOrigins[g.r.Intn(len(c28FamilyOrigins))]; c != o {
+			return c
+		}
+	}
+}
+
+// nestFamily adds a directory-kind parent of one origin and one to three
+// entries beneath it (one or two components down, now and then a grandchild)
+// whose origin differs from the parent's three times out of four: layout
+// beneath content, content beneath layout, either beneath or above overname.
+func (g *c28Gen) nestFamily(prof []osutil.MountEntry) []osutil.MountEntry {
+	r := g.r
+	po := c28FamilyOrigins[r.Intn(len(c28FamilyOrigins))]
+	target := g.pickTarget(prof, false)
+	n := len(prof)
+	prof = g.add(prof, g.dirEntry(target, po))
+	if len(prof) == n {
+		return prof
+	}
+	for k := 1 + r.Intn(3); k > 0; k-- {
+		co := po
+		if r.Intn(4) != 0 {
+			co = g.otherOrigin(po)
+		}
+		sub := filepath.Join(target, c28PickName(r))
+		if r.Intn(4) == 0 {
+			sub = filepath.Join(sub, c28PickName(r))
+		}
+		n = len(prof)
+		child := g.leafEntry(sub, co)
+		prof = g.add(prof, child)
+		if len(prof) > n && c28DirKind(&child) && child.XSnapdKind() == "" && r.Intn(4) == 0 {
+			prof = g.add(prof, g.leafEntry(filepath.Join(sub, c28PickName(r)), g.otherOrigin(co)))
+		}
+	}
+	return prof
+}
+
+func (g *c28Gen) readOnlyDirs() []string {
+	var out []string
+	for _, d := range g.t.Dirs {
+		if d == g.t.Root {
+			continue
+		}
+		for _, ro := range g.t.RO {
+			if d == ro || strings.HasPrefix(d, ro+"/") {
+				out = append(out, d)
+				break
+			}
+		}
+	}
+	return out
+}
+
+// mimicFamily adds two or three entries on missing names directly inside one
+// existing directory of a read-only region: the first one that gets mounted
+// has the writable mimic made for it (tmpfs + binds, needed-by that entry),
+// the others are mounted inside that mimic. Origins: mostly layout, mixed
+// with content and, rarely, overname.
+func (g *c28Gen) mimicFamily(prof []osutil.MountEntry) []osutil.MountEntry {
+	r := g.r
+	ro := g.readOnlyDirs()
+	if len(ro) == 0 {
+		return prof
+	}
+	base := ro[r.Intn(len(ro))]
+	want := 2 + r.Intn(2)
+	for try := 0; try < 12 && want > 0; try++ {
+		p := filepath.Join(base, c28PickName(r))
+		if g.t.exists(p) || g.used[p] {
+			continue
+		}
+		o := "layout"
+		switch x := r.Intn(10); {
+		case x < 3:
+			o = ""
+		case x < 4:
+			o = "overname"
+		}
+		n := len(prof)
+		prof = g.add(prof, g.leafEntry(p, o))
+		if len(prof) > n {
+			want--
+		}
+	}
+	return prof
+}
+
+// bystanders adds up to three unrelated entries, of any origin, on paths that
+// sort before (etc, home, opt) or after (var/...) most of the tree.
+func (g *c28Gen) bystanders(prof []osutil.MountEntry) []osutil.MountEntry {
+	r := g.r
+	early := []string{"etc", "home/u", "opt"}
+	late := []string{"var/lib", "var/snap/foo/common", "var"}
+	for k := 1 + r.Intn(3); k > 0; k-- {
+		where := early
+		if r.Intn(2) == 0 {
+			where = late
+		}
+		p := filepath.Join(g.t.Root, where[r.Intn(len(where))], c28PickName(r))
+		o := c28FamilyOrigins[r.Intn(len(c28FamilyOrigins))]
+		if g.used[p] {
+			continue
+		}
+		if g.t.hasDir(p) || !g.t.exists(p) {
+			prof = g.add(prof, g.leafEntry(p, o))
+		}
+	}
+	return prof
+}
+
+// families adds the directed classes to a profile under construction.
+func (g *c28Gen) families(prof []osutil.MountEntry) []osutil.MountEntry {
+	switch g.r.Intn(4) {
+	case 0:
+		prof = g.nestFamily(prof)
+	case 1:
+		prof = g.mimicFamily(prof)
+	default:
+		prof = g.nestFamily(prof)
+		prof = g.mimicFamily(prof)
+	}
+	if g.r.Intn(3) != 0 {
+		prof = g.bystanders(prof)
+	}
+	return prof
+}
+
+// victim picks an entry of prev whose change leaves something else standing
+// on it: an entry with another entry beneath it, or one of several entries on
+// missing names inside the same directory (the one the shared mimic was made
+// for may be among them). Returns -1 when there is none.
+func (g *c28Gen) victim(prev []osutil.MountEntry) int {
+	var cand []int
+	for i := range prev {
+		ok := false
+		for j := range prev {
+			if j == i {
+				continue
+			}
+			if strings.HasPrefix(prev[j].Dir, prev[i].Dir+"/") {
+				ok = true
+			} else if filepath.Dir(prev[j].Dir) == filepath.Dir(prev[i].Dir) && !g.t.exists(prev[i].Dir) && !g.t.exists(prev[j].Dir) {
+				ok = true
+			}
+		}
+		if ok {
+			cand = append(cand, i)
+		}
+	}
+	if len(cand) == 0 {
+		return -1
+	}
+	return cand[g.r.Intn(len(cand))]
+}
+
+// parentGoes derives the next profile around one victim: it is removed (60%)
+// or modified, everything beneath it and beside it in the same directory
+// stays textually unchanged, the unrelated entries mostly stay (7% removed,
+// 8% modified), 0-1 new entries.
+func (g *c28Gen) parentGoes(prev []osutil.MountEntry, vi int) (next []osutil.MountEntry, shape string) {
+	r := g.r
+	g.setUsed(nil)
+	v := prev[vi]
+	what := "removed"
+	for i, e := range prev {
+		switch {
+		case i == vi:
+			if r.Intn(10) < 6 {
+				continue
+			}
+			what = "modified"
+			next = g.add(next, g.modify(e))
+		case strings.HasPrefix(e.Dir, v.Dir+"/") || filepath.Dir(e.Dir) == filepath.Dir(v.Dir):
+			next = g.add(next, c28CopyEntry(e))
+		default:
+			switch y := r.Intn(100); {
+			case y < 7:
+			case y < 15:
+				next = g.add(next, g.modify(e))
+			default:
+				next = g.add(next, c28CopyEntry(e))
+			}
+		}
+	}
+	if r.Intn(2) == 0 {
+		next = g.add(next, g.newEntry(next))
+	}
+	if r.Intn(2) == 0 {
+		r.Shuffle(len(next), func(i, j int) { next[i], next[j] = next[j], next[i] })
+	}
+	return next, "parent-" + what + "-rest-stays"
 }
 
 // ---------------------------------------------------------------------------
